@@ -39,7 +39,7 @@ func daemonMain() {
 	if exists("daemon.hold") {
 		waitFor("daemon.release")
 	}
-	if os.Getppid() != bornTo {
+	if os.Getppid() != bornTo || bornTo <= 1 {
 		// the launcher has gone without waiting for Done(): Done() would signal whoever adopted
 		// this process (init), which a test must not do. The coordinator has seen Launch return.
 		touch("daemon.launcher-gone-before-done", "")
